@@ -206,8 +206,14 @@ func BulkSweep(cfg *BulkConfig, run *ev.Run, ownTags map[string]bool) {
 			for _, d := range docs {
 				setup = append(setup, m.Op{K: "insert", Coll: "a", Docs: []m.Doc{d}})
 			}
-		} else if t.n > 0 {
-			setup = append(setup, m.Op{K: "insert", Coll: "a", Docs: docs})
+		} else {
+			for lo := 0; lo < t.n; lo += 400 { // batches small enough for every store's transaction limit
+				hi := lo + 400
+				if hi > t.n {
+					hi = t.n
+				}
+				setup = append(setup, m.Op{K: "insert", Coll: "a", Docs: docs[lo:hi]})
+			}
 		}
 		// a second collection with a prefix-related name must never be touched
 		setup = append(setup, m.Op{K: "createColl", Coll: "ab"}, m.Op{K: "createIndex", Coll: "ab", Field: "x"}, m.Op{K: "insert", Coll: "ab", Docs: []m.Doc{bulkDoc(0, 0), bulkDoc(1, 0)}})
@@ -234,6 +240,17 @@ func BulkSweep(cfg *BulkConfig, run *ev.Run, ownTags map[string]bool) {
 			report(f)
 		}
 		if res.Panic != nil {
+			return
+		}
+		if drv.StoreRefused(res.Err) {
+			// refused by the store as a whole: nothing may have changed
+			run.Add("operations_refused_by_the_store", 1)
+			for _, f := range drv.AuditAPI(in, model, drv.AuditOpts{}) {
+				report(f)
+			}
+			for _, f := range drv.AuditRaw(in, scratch, model) {
+				report(f)
+			}
 			return
 		}
 		if res.Err != nil {
